@@ -2,6 +2,7 @@ package updates
 
 import (
 	"fmt"
+	"math"
 	"reflect"
 
 	"github.com/ovn-org/libovsdb/mapper"
@@ -384,6 +385,11 @@ func (u *ModelUpdates) addMutateOperation(dbModel model.DatabaseModel, table, uu
 		}
 
 		newValue, diff := mutate(current, mutation.Mutator, nativeValue)
+		if !isFinite(newValue) {
+			// RFC 7047 5.1: the result of an arithmetic mutation on a real
+			// column must be representable
+			return ovsdb.NewRangeError(fmt.Sprintf("result of %q on column %q is out of range", mutation.Mutator, mutation.Column))
+		}
 		if err := newInfo.SetField(mutation.Column, newValue); err != nil {
 			return err
 		}
@@ -432,6 +438,22 @@ func (u *ModelUpdates) addMutateOperation(dbModel model.DatabaseModel, table, uu
 	)
 
 	return err
+}
+
+// isFinite reports whether a real value, or every element of a set of reals,
+// is a finite number; values of other types always are
+func isFinite(value interface{}) bool {
+	switch v := value.(type) {
+	case float64:
+		return !math.IsInf(v, 0) && !math.IsNaN(v)
+	case []float64:
+		for _, f := range v {
+			if math.IsInf(f, 0) || math.IsNaN(f) {
+				return false
+			}
+		}
+	}
+	return true
 }
 
 func (u *ModelUpdates) addDeleteOperation(dbModel model.DatabaseModel, table, uuid string, old model.Model, op *ovsdb.Operation) error {
